@@ -97,6 +97,26 @@ pub fn panic_violation(prop: &str, c: &Case, p: &PanicInfo) -> Violation {
     .with_signature(&p.signature())
 }
 
+/// Giant cells: one central generator inside a shell of thousands of others, only the centre (and two shell cells)
+/// constructed. The central cell has about n faces, 2n vertices and 6n face-vertex connections - beyond any 8- or
+/// 16-bit counter, deep boundary cycles, long face lists.
+pub fn giant_cells(a: &Args, rep: &mut Report, label: &str, quick: &[usize], thorough: &[usize], f: impl Fn(&Case, &mut Report) + Sync) {
+    if a.leg.as_deref().map_or(false, |l| l != "relcheck" && l != "norayon") {
+        return;
+    }
+    let szs: &[usize] = if a.tier == "thorough" { thorough } else { quick };
+    run_parallel(rep, szs.len() as u64, budget(a, 200., 1800.), |k, rep| {
+        let n = szs[k as usize];
+        let c = vcore::case::shell_case(label, &a.tier, a.seed, k, n);
+        let before = rep.violations.len();
+        f(&c, rep);
+        rep.count("giant_cell_inputs", 1);
+        rep.max("giant_cell_generators", c.n() as f64);
+        let _ = before;
+    });
+}
+
+
 pub fn run(a: &Args, rep: &mut Report) {
     match a.id.as_str() {
         "C01" => c01(a, rep),
@@ -328,6 +348,7 @@ fn c01(a: &Args, rep: &mut Report) {
         }
         one_c01("C01", &c, rep);
     });
+    giant_cells(a, rep, "C01", &[3000], &[3000, 12000, 12000], |c, rep| one_c01("C01", c, rep));
 }
 
 fn one_c02(prop: &str, c: &Case, rep: &mut Report) {
@@ -440,4 +461,5 @@ fn c04(a: &Args, rep: &mut Report) {
         with_random_mask("C04mask", a, k, &mut c, 3);
         one_c04("C04", &c, rep);
     });
+    giant_cells(a, rep, "C04", &[3000, 12000], &[3000, 12000, 25000, 40000], |c, rep| one_c04("C04", c, rep));
 }
